@@ -58,6 +58,7 @@ type Term struct {
 	Name string   // OpVar
 	I, J int      // OpExtract hi, lo
 	ID   int
+	wr   []wire // cached bit wiring (wire.go)
 }
 
 // Pool is the hash-consing table. One per engine run; terms are immutable and shared across paths.
@@ -285,6 +286,9 @@ func (p *Pool) And(a, b *Term) *Term {
 	if a == b {
 		return a
 	}
+	if r := p.wireBin(OpAnd, a, b); r != nil {
+		return r
+	}
 	if a.ID > b.ID {
 		a, b = b, a
 	}
@@ -321,6 +325,9 @@ func (p *Pool) Or(a, b *Term) *Term {
 	}
 	if a == b {
 		return a
+	}
+	if r := p.wireBin(OpOr, a, b); r != nil {
+		return r
 	}
 	if a.ID > b.ID {
 		a, b = b, a
@@ -361,6 +368,9 @@ func (p *Pool) Xor(a, b *Term) *Term {
 			return p.False
 		}
 		return p.ConstBig(a.W, new(big.Int))
+	}
+	if r := p.wireBin(OpXor, a, b); r != nil {
+		return r
 	}
 	if a.ID > b.ID {
 		a, b = b, a
@@ -444,6 +454,24 @@ func (p *Pool) Neg(a *Term) *Term {
 	}
 	if a.Op == OpNeg {
 		return a.A[0]
+	}
+	if WireNormalForm && wireLike(a) && a.W > 1 {
+		// -(b) for a value b in {0,1} is the mask with every bit equal to b
+		ws := p.wires(a)
+		small := true
+		for _, x := range ws[1:] {
+			if x.src != nil || x.bit != 0 {
+				small = false
+				break
+			}
+		}
+		if small {
+			out := make([]wire, a.W)
+			for i := range out {
+				out[i] = ws[0]
+			}
+			return p.canonical(out)
+		}
 	}
 	return p.mk(OpNeg, a.W, a)
 }
@@ -545,6 +573,9 @@ func (p *Pool) Shl(a, b *Term) *Term {
 		if a.Op == OpConst {
 			return p.ConstBig(a.W, new(big.Int).Lsh(a.BigVal(), uint(b.U64())))
 		}
+		if r := p.wireShift(OpShl, a, int(b.U64())); r != nil {
+			return r
+		}
 	}
 	if a.isZero() {
 		return a
@@ -563,6 +594,9 @@ func (p *Pool) LShr(a, b *Term) *Term {
 		}
 		if a.Op == OpConst {
 			return p.ConstBig(a.W, new(big.Int).Rsh(a.BigVal(), uint(b.U64())))
+		}
+		if r := p.wireShift(OpLShr, a, int(b.U64())); r != nil {
+			return r
 		}
 	}
 	if a.isZero() {
@@ -584,6 +618,13 @@ func (p *Pool) AShr(a, b *Term) *Term {
 			}
 			return p.ConstBig(a.W, new(big.Int).Rsh(signedBig(a), n))
 		}
+		k := a.W - 1
+		if b.BigVal().Cmp(big.NewInt(int64(a.W))) < 0 {
+			k = int(b.U64())
+		}
+		if r := p.wireShift(OpAShr, a, k); r != nil {
+			return r
+		}
 	}
 	return p.mk(OpAShr, a.W, a, b)
 }
@@ -603,6 +644,12 @@ func (p *Pool) Concat(hi, lo *Term) *Term {
 	}
 	if hi.isZero() {
 		return p.ZExt(lo, w)
+	}
+	if WireNormalForm {
+		ws := make([]wire, 0, w)
+		ws = append(ws, p.wires(lo)...)
+		ws = append(ws, p.wires(hi)...)
+		return p.canonical(ws)
 	}
 	return p.mk(OpConcat, w, hi, lo)
 }
@@ -676,11 +723,9 @@ func (p *Pool) Extract(a *Term, hi, lo int) *Term {
 				return p.Extract(a.A[0], hi+k, lo+k)
 			}
 		}
-	case OpAdd, OpSub, OpMul:
-		// low bits of modular arithmetic depend only on low bits of the operands
-		if lo == 0 && a.A[0].Op != OpConst && a.A[1].Op != OpConst {
-			break
-		}
+	}
+	if WireNormalForm && wireLike(a) {
+		return p.canonical(p.wires(a)[lo : hi+1])
 	}
 	return p.intern(&Term{Op: OpExtract, W: w, A: []*Term{a}, I: hi, J: lo})
 }
@@ -697,6 +742,14 @@ func (p *Pool) ZExt(a *Term, w int) *Term {
 	}
 	if a.Op == OpZExt {
 		return p.ZExt(a.A[0], w)
+	}
+	if WireNormalForm && isShuffle(a) {
+		ws := make([]wire, w)
+		copy(ws, p.wires(a))
+		for i := a.W; i < w; i++ {
+			ws[i] = wire{nil, 0}
+		}
+		return p.canonical(ws)
 	}
 	return p.mk(OpZExt, w, a)
 }
